@@ -137,7 +137,7 @@ theorem parse_encode (cfg : Cfg) (ext : Bool) (m : Msg) (hm : Benign cfg m) (res
   case cutText t => exact parse_cut ext 0 0 0 t rest hm
   case fbUpdateRequest b => exact parse_fixed ext 3 9 _ (by simp [normalBody]) b rest hm
   case setEncodings encs => exact parse_setenc ext encs hm.1 hm.2 rest
-  case setScale p s => exact parse_setScale ext p s hm.2.1 rest
+  case setScale p s => exact parse_setScale ext p s hm.2 rest
   case setPixelFormat b => exact parse_fixed ext 0 19 _ (by simp [normalBody]) b rest hm.1
   case setServerInput b => exact parse_fixed ext 9 3 _ (by simp [normalBody]) b rest hm
   case setSW b => exact parse_fixed ext 10 5 _ (by simp [normalBody]) b rest hm
@@ -241,6 +241,42 @@ theorem handle_viewOnly (orc : AuthOracle) (cfg : Cfg) (o : Option Nat) (cl : Cl
   · cases m <;> simp only [handleNormal, closeCl, setScale, handleExtClip, hv] <;>
       (repeat' split) <;> simp_all
   · cases m <;> simp only [handleHs, closeCl] <;> (repeat' split) <;> simp_all
+
+theorem processFlat_nil (orc : AuthOracle) (fuel : Nat) (s : Server) (i : Nat) :
+    processFlat orc fuel s i [] = (s, []) := by
+  cases fuel <;> simp [processFlat]
+
+/-! ## every call of rfbProcessClientMessage consumes input -/
+
+theorem runFlat_length {α : Type} (r : Reader α) : ∀ (bs : List UInt8) (a : α) (rest : List UInt8),
+    r.runFlat bs = some (a, rest) → rest.length ≤ bs.length := by
+  induction r with
+  | done a =>
+    intro bs a' rest h
+    simp only [Reader.runFlat, Option.some.injEq, Prod.mk.injEq] at h
+    rw [h.2]; exact Nat.le_refl _
+  | read n k ih =>
+    intro bs a rest h
+    simp only [Reader.runFlat] at h
+    split at h
+    · have := ih _ _ _ _ h
+      simp only [List.length_drop] at this
+      omega
+    · simp at h
+
+theorem readerFor_consumes (cl : Client) (bs : List UInt8) (m : Msg) (rest : List UInt8)
+    (h : (readerFor cl).runFlat bs = some (m, rest)) : rest.length < bs.length := by
+  have key : ∀ (n : Nat) (k : List UInt8 → Reader Msg), 0 < n →
+      (Reader.read n k).runFlat bs = some (m, rest) → rest.length < bs.length := by
+    intro n k hn h
+    simp only [Reader.runFlat] at h
+    split at h
+    · have := runFlat_length _ _ _ _ h
+      simp only [List.length_drop] at this
+      omega
+    · simp at h
+  cases hst : cl.st <;> simp only [readerFor, hst, parseNormal] at h <;>
+    exact key _ _ (by decide) h
 
 /-! ## segmentation, lifted to whole connections -/
 
